@@ -183,3 +183,149 @@ def rand_prog(rng, caps, nmax=8, nreg=None, bad=0.0, selfdep=0.3):
         cat = rng.choice(caps) if (caps and rng.random() >= bad) else "XXX"
         prog.append((tuple(srcs), dst, cat))
     return prog
+
+
+# ----------------------------------------------------------------------------- malformed descriptions
+def graft_dead_branch(rng, d, depth=None):
+    """attach u -> x1 -> ... -> xk where xk shares no capability with x(k-1): xk is emptied, the chain
+    becomes a dead end of depth k-1 that must be pruned back to u"""
+    if not d["units"]:
+        return d
+    depth = depth or rng.randint(1, 3)
+    u = rng.choice(d["units"])
+    caps = list(u["capabilities"]) or ["ALU"]
+    prev = u["name"]
+    used = {x["name"].lower() for x in d["units"]}
+    for k in range(depth):
+        nm = f"dead{k}"
+        while nm.lower() in used:
+            nm += "x"
+        used.add(nm.lower())
+        last = k == depth - 1
+        d["units"].append({"name": nm, "width": rng.randint(1, 2),
+                           "capabilities": ["ZZZ"] if last else list(caps),
+                           "readLock": False, "writeLock": False})
+        d["dataPath"].append([prev, nm])
+        prev = nm
+    return d
+
+
+def inject_defect(rng, d, kind=None):
+    """one syntactic or structural defect; returns (desc, kind)"""
+    us, es = d["units"], d["dataPath"]
+    kinds = ["dupname", "badwidth", "badedge", "undef", "cycle", "deadbranch", "nocaps", "deadinput",
+             "blocked", "locks", "aclundef", "emptyname", "selfloop"]
+    kind = kind or rng.choice(kinds)
+    if kind == "dupname" and us:
+        v = dict(rng.choice(us))
+        v["name"] = recase(rng, v["name"], 0.7)
+        us.insert(rng.randrange(len(us) + 1), v)
+    elif kind == "badwidth" and us:
+        rng.choice(us)["width"] = rng.choice([0, -1, -3])
+    elif kind == "badedge":
+        names = [u["name"] for u in us] or ["x"]
+        es.insert(rng.randrange(len(es) + 1), rng.choice([[], [rng.choice(names)], [rng.choice(names)] * 3]))
+    elif kind == "undef":
+        names = [u["name"] for u in us] or ["x"]
+        e = [rng.choice(names), "nowhere"]
+        rng.shuffle(e)
+        es.insert(rng.randrange(len(es) + 1), e)
+    elif kind == "cycle" and es:
+        e = rng.choice([x for x in es if len(x) == 2] or [["a", "b"]])
+        es.append([e[1], e[0]])
+    elif kind == "selfloop" and us:
+        n = rng.choice(us)["name"]
+        es.append([n, n])
+    elif kind == "deadbranch":
+        graft_dead_branch(rng, d)
+    elif kind == "nocaps" and us:
+        rng.choice(us)["capabilities"] = []
+    elif kind == "deadinput" and us:
+        # a new input port whose only successor shares nothing with it
+        nm = "lonelyIn"
+        us.append({"name": nm, "width": 1, "capabilities": ["QQQ"], "readLock": True, "writeLock": True})
+        es.append([nm, rng.choice(us[:-1])["name"]])
+    elif kind == "blocked" and us:
+        # an input capability that no successor supports
+        srcs = {e[0].lower() for e in es if len(e) == 2}
+        tg = {e[1].lower() for e in es if len(e) == 2}
+        ins = [u for u in us if u["name"].lower() not in tg and u["name"].lower() in srcs]
+        if ins:
+            rng.choice(ins)["capabilities"].append("ONLYHERE")
+    elif kind == "locks" and us:
+        u = rng.choice(us)
+        k = rng.choice(["readLock", "writeLock"])
+        u[k] = not u.get(k, False)
+    elif kind == "aclundef" and us:
+        rng.choice(us).setdefault("memoryAccess", []).append("NOSUCHCAP")
+    elif kind == "emptyname" and us:
+        us[0]["name"] = ""
+    return d, kind
+
+
+# ----------------------------------------------------------------------------- program text / ISA tables
+WS = [" ", "\t", "  ", " \t ", "\x0b", "\x0c", "\x1c", "\x1f"]
+IDCH = "ABCDEFGHIJKLMNOPQRSTUVWXYZabcdefghijklmnopqrstuvwxyz0123456789_"
+
+
+def ident(rng, pool=None, maxlen=4):
+    if pool and rng.random() < 0.8:
+        return rng.choice(pool)
+    return "".join(rng.choice(IDCH) for _ in range(rng.randint(1, maxlen)))
+
+
+def ws(rng, lo=0):
+    if lo == 0 and rng.random() < 0.5:
+        return ""
+    return "".join(rng.choice(WS[:4] if rng.random() < 0.9 else WS) for _ in range(rng.randint(max(1, lo), 2)))
+
+
+def rand_instr_list(rng, n=None, mnems=None, regs=None):
+    n = rng.randint(0, 8) if n is None else n
+    regs = regs or [f"R{i}" for i in range(rng.randint(2, 5))] + ["r1", "Acc"]
+    mnems = mnems or ["ADD", "SUB", "LW", "mul", "Beq"]
+    out = []
+    for _ in range(n):
+        k = rng.randint(1, 5)
+        ops = [recase(rng, ident(rng, regs), 0.3) for _ in range(k)]
+        out.append([recase(rng, ident(rng, mnems), 0.3), ops])
+    return out
+
+
+def render_program(rng, instrs, corrupt=None):
+    """lines (with line terminators, as file iteration yields them) for an instruction list; optional
+    single-fault corruption: ('noops', i) / ('empty', i, k)"""
+    lines = []
+    for idx, (m, ops) in enumerate(instrs):
+        while rng.random() < 0.25:
+            lines.append(ws(rng) + "\n")
+        ops = list(ops)
+        if corrupt and corrupt[1] == idx:
+            if corrupt[0] == "noops":
+                lines.append(ws(rng) + m + ws(rng) + "\n")
+                continue
+            ops[min(corrupt[2], len(ops) - 1)] = ""
+            if len(ops) == 1:
+                ops = ["", "R1"] if corrupt[2] == 0 else ["R1", ""]
+        body = (ws(rng) + "," + ws(rng)).join(ops)
+        lines.append(ws(rng) + m + ws(rng, 1) + body + ws(rng) + ("\n" if rng.random() < 0.9 else ""))
+    while rng.random() < 0.2:
+        lines.append(ws(rng) + "\n")
+    return lines
+
+
+def rand_isa(rng, caps, n=None, defect=0.15):
+    n = rng.randint(0, 8) if n is None else n
+    mn = ["ADD", "SUB", "LW", "SW", "MUL", "DIV", "BEQ", "NOP", "and", "Or"]
+    rng.shuffle(mn)
+    spec = []
+    for m in mn[:n]:
+        c = rng.choice(caps) if caps else "ALU"
+        spec.append([recase(rng, m, 0.4), recase(rng, c, 0.5)])
+    r = rng.random()
+    if spec and r < defect:
+        m = rng.choice(spec)
+        spec.insert(rng.randrange(len(spec) + 1), [recase(rng, m[0], 0.8), m[1]])
+    elif spec and r < 2 * defect:
+        rng.choice(spec)[1] = "NOCAP"
+    return spec
